@@ -1414,7 +1414,11 @@ func (ex *Exec) findCaptureSite(fn *ssa.Function, cp *Capture) ssa.CallInstructi
 				if !ok || !in.Pos().IsValid() {
 					continue
 				}
-				if ex.prog.callFunText(in.Pos()) == strings.ReplaceAll(cp.Callee, " ", "") {
+				want := strings.ReplaceAll(cp.Callee, " ", "")
+				txt := ex.prog.callFunText(in.Pos())
+				// `*.Name` names a method call by its selector only, whatever expression (a call
+				// chain, say) the receiver is
+				if txt == want || (strings.HasPrefix(want, "*.") && strings.HasSuffix(txt, want[1:])) {
 					cands = append(cands, cand{in.Pos(), ci})
 				}
 			}
